@@ -1,13 +1,13 @@
 -- GENERATED from /repo on every check run by `harness gen`; do not edit.
 namespace Biogo.Generated.MorassFacts
 
-/-- Push: `m.writable <- m.chunk; m.writers.Add(1); go m.write()` consecutive, the only `go` -/
+/-- `m.writable <- m.chunk; m.writers.Add(1); go m.write()` consecutive (in Push or a helper), the only `go` of the file -/
 def pushAddsBeforeSpawn : Bool := true
-/-- Finalise: `m.writers.Add(1); m.write(); m.writers.Wait()` consecutive -/
+/-- `m.writers.Add(1); m.write(); m.writers.Wait()` consecutive (in Finalise or a helper) -/
 def finaliseAddsWritesThenWaits : Bool := true
-/-- write: first statement is `defer m.writers.Done()` -/
+/-- the spawned writer method: first statement is `defer m.writers.Done()`, the only Done -/
 def writeDefersDoneFirst : Bool := true
-/-- write: `m.files = append(m.files, f)` between filesLock.Lock and Unlock -/
+/-- every `m.files = append(m.files, f)` directly between filesLock.Lock and Unlock -/
 def filesAppendUnderLock : Bool := true
 /-- setErr takes the error lock -/
 def setErrLocks : Bool := true
